@@ -4,7 +4,8 @@ from __future__ import annotations
 from . import common, tlc
 
 NOMINAL = {
-    'C04': [('MC_Conc', ['ReadCorrect', 'WriteAcked', 'TypeOK']), ('MC_Conc_pinned', ['ReadCorrect', 'WriteAcked', 'TypeOK'])],
+    'C04': [('MC_Conc', ['ReadCorrect', 'WriteAcked', 'TypeOK']), ('MC_Conc_pinned', ['ReadCorrect', 'WriteAcked', 'TypeOK']),
+            ('MC_Conc_seek', ['ReadCorrect', 'SeekReadCorrect', 'TypeOK'])],
     'C05': [('MC_Crash', ['Recoverable', 'ReadCorrect', 'TypeOK']), ('MC_Crash_nopp', ['Recoverable', 'ReadCorrect', 'TypeOK']),
             ('MC_Maint', ['Recoverable', 'KeysUnique', 'Completed'])],
     'C06': [('MC_Crash', ['DurableVisible', 'AfterPowerLoss', 'TypeOK']), ('MC_Crash_nopp', ['DurableVisible', 'AfterPowerLoss', 'TypeOK']),
@@ -13,7 +14,7 @@ NOMINAL = {
 }
 # flipping a switch must make TLC find the violation (the invariants are not vacuous)
 DEVIATIONS = {
-    'C04': [('MC_Dev_NoFallback', 'ReadCorrect'), ('MC_Dev_UnlinkBeforeCommit', 'Recoverable')],
+    'C04': [('MC_Dev_NoFallback', 'ReadCorrect'), ('MC_Dev_UnlinkBeforeCommit', 'Recoverable'), ('MC_Dev_NoRetry', 'SeekReadCorrect')],
     'C05': [('MC_Dev_UnlinkBeforeCommit', 'Recoverable'), ('MC_Dev_CommitBeforeFlush', 'Recoverable'),
             ('MC_MaintDev_UnlinkOldFirst', 'Recoverable'), ('MC_MaintDev_SeekBack', 'Recoverable')],
     'C06': [('MC_Dev_SkipPackFsync', 'DurableVisible'), ('MC_Dev_RenameBeforeFsync', 'DurableVisible'),
